@@ -3260,7 +3260,10 @@ def _second_pass(fa: FA, param):
             consuming = True
         elif isinstance(par, ast.Call) and par.func is not n:
             f = par.func
-            consuming = not (isinstance(f, ast.Name) and f.id in _NOT_CONSUMING)
+            d_ = A.dotted(f) or ""
+            # printing / logging / formatting shows the object, it does not go through it
+            shown = d_.split(".")[0] in ("log", "logger", "logging", "warnings") or d_ == "print" or (isinstance(f, ast.Attribute) and f.attr == "format")
+            consuming = not (isinstance(f, ast.Name) and f.id in _NOT_CONSUMING) and not shown
         elif isinstance(par, ast.keyword):
             consuming = True
         elif isinstance(par, ast.Compare) and n in par.comparators and any(isinstance(o, (ast.In, ast.NotIn)) for o in par.ops):
